@@ -16,7 +16,7 @@ REASONS = {
     "C12": "Not applicable: the property is about state after a panic unwinds; Kani/CBMC model panic as termination (no unwinding, no catch_unwind, drop guards do not run)",
     "C14": "Not applicable: the smallest unit is InferenceTable::relate, which does not finish under CBMC even on a fully concrete pair (P18, 25 min)",
     "C15": "Not applicable: same unit as C14 (relate + ena snapshot/rollback), same measurements",
-    "C19": 'Not applicable: SpecializationPriorities is an IndexMap with std RandomState (thread-local keys: the Kani ICE class of P3), the specialization forest is a petgraph Graph on the untyped heap, impl datums are Arcs behind dyn RustIrDatabase (DESIGN.md §5); F2 is documented from its native reproduction only',
+    "C19": "Not applicable: attempted (harness/solveshadow/c19.rs: the priority assignment set_priorities + SpecializationPriorities::insert on a three-impl forest with a stub database) - one class does not finish in 600 s: SpecializationPriorities is an IndexMap with std RandomState (getrandom keys are nondeterministic, SipHash of them, hashbrown SIMD group probes modelled lane by lane), the forest is a petgraph Graph on the heap (DESIGN.md B16); the pairwise disjoint/specializes queries need solver runs. F2 is documented from its native reproduction only",
     "C20": "Not applicable: orphan-check clauses come from clause generation (P31) and are judged by a solver run",
     "C21": "Not applicable: a meta-property whose truth is an entailment evaluated by solver runs over a universe of types",
     "C22": "Not applicable: fmt-driven printer and LALRPOP parser/lexer with string_cache atoms are beyond bit-level symbolic execution (and hit the Kani ICE of P3)",
